@@ -91,6 +91,13 @@ def findings():
     probe("kronsum_inplace_dtype", "KronSum._matmat accumulates in place into a buffer of the operand's dtype: complex factors times a real operand raise, float64 factors times float32 return float32", kronsum_dtype,
           "KronSum(Dense([[1j]]),Dense([[2+0j]])) @ ones(1)")
 
+    def sliced_cast():
+        A = ops.Sliced(ops.Dense(np.ones((2, 2), np.float32)), (slice(0, 2), slice(0, 2)))
+        y = A @ np.ones(2, np.float64)
+        return y.dtype != np.float64, y.dtype
+    probe("sliced_casts_operand", "Sliced scatters the operand into a buffer of the operator's dtype: float32 slice @ float64 vector returns float32", sliced_cast,
+          "Sliced(Dense(ones((2,2),float32)),(slice(0,2),slice(0,2))) @ ones(2,float64)")
+
     def sliced_arr():
         A = ops.Sliced(ops.Dense(np.arange(9.).reshape(3, 3)), (np.array([0, 2]), slice(None)))
         D = A.to_dense()
@@ -147,28 +154,47 @@ def run(ctx):
         mism.append(dict(oracle_fail=False, harness_error=err))
         failing = []
     failset = {coq_idx[i] for i in failing}
-    dt_checked = 0
+    # dtype clause: Coq dtype model at the probed flag vector vs A.dtype / (A@X).dtype / (X@A).dtype, all cases
+    import re as _re
+    flv = ("{| sum_first := %s; concat_first := %s; ident_pass := %s; perm_pass := %s; kronsum_inplace := %s; sliced_cast := %s |}" %
+           tuple("true" if f in present else "false" for f in ("sum_dtype_first", "concat_dtype_first", "identity_passes_dtype",
+                                                               "permutation_passes_dtype", "kronsum_inplace_dtype", "sliced_casts_operand")))
+    dt_idx = [i for i, o in enumerate(obs) if o.get("ok")]
+    dterms = []
+    for i in dt_idx:
+        c, o = cases[i], obs[i]
+        hl = o.get("resl_dtype") in T.DTC
+        dterms.append("{| dtree := %s; ddx := %s; dA := %s; dout := %s; drout := %s; dhas_left := %s |}" %
+                      (T.dsk(c["tree"]), T.DTC[c["dx"]], T.DTC[o["dtype"]], T.DTC[o["res_dtype"]], T.DTC[o["resl_dtype"]] if hl else "F32", "true" if hl else "false"))
+    dfail = set()
+    shard = 400
+    jobs = [(f"c01dt_{s0 // shard}", "From Coq Require Import List Bool Arith.\nFrom Core Require Import DtypeTable Dtype CheckDT.\nImport ListNotations.\n"
+             "Definition cases : list dcase := [\n" + ";\n".join(dterms[s0:s0 + shard]) + f"].\nEval vm_compute in (length cases, dfailing {flv} 0 cases).\n")
+            for s0 in range(0, len(dterms), shard)]
+    for si, (rc, out) in enumerate(core.coqc_many(jobs, 600)):
+        mm = _re.search(r"=\s*\((\d+),\s*\[(.*?)\]\)", out, flags=_re.S)
+        if rc != 0 or not mm:
+            mism.append(dict(oracle_fail=False, harness_error=f"dtype shard {si}: rc={rc}\n{out[-1200:]}"))
+            continue
+        if mm.group(2).strip():
+            dfail |= {dt_idx[si * shard + int(x)] for x in mm.group(2).replace("\n", " ").split(";") if x.strip()}
+    dt_checked = len(dt_idx)
+    dt_deviates = 0
     for i, (c, o) in enumerate(zip(cases, obs)):
         bad = O.oracle_fwd(c, o)
-        # dtype clause on the region no recorded dtype flag touches
+        dbad = []
         if o.get("ok"):
             dts = O.leaf_dts(c["tree"])
-            safe = not (("identity_passes_dtype" in present and O.has_kind(c["tree"], ("Ident",))) or
-                        ("permutation_passes_dtype" in present and O.has_kind(c["tree"], ("Perm",))) or
-                        ("sum_dtype_first" in present and O.has_kind(c["tree"], ("Sum",)) and len(set(dts)) > 1) or
-                        ("concat_dtype_first" in present and O.has_kind(c["tree"], ("Concat",)) and len(set(dts)) > 1) or
-                        ("kronsum_inplace_dtype" in present and O.has_kind(c["tree"], ("KronSum",)) and len(set(dts + [c["dx"]])) > 1) or
-                        O.has_kind(c["tree"], ("Sliced", "Tridiag", "House", "Scal", "Sparse")) and len(set(dts + [c["dx"]])) > 1)
-            if safe:
-                dt_checked += 1
-                want_op = O.promote_all(dts)
-                want = O.promote_all(dts + [c["dx"]])
-                if o["dtype"] != want_op:
-                    bad.append(f"A.dtype {o['dtype']} != {want_op}")
-                if o["res_dtype"] != want:
-                    bad.append(f"(A@X).dtype {o['res_dtype']} != {want}")
-        if bad or i in failset:
-            mism.append(dict(oracle_fail=bool(bad), case=c, got=o, failed_clauses=bad, model_disagrees=(i in failset)))
+            want_op, want = O.promote_all(dts), O.promote_all(dts + [c["dx"]])
+            if o["dtype"] != want_op:
+                dbad.append(f"A.dtype {o['dtype']} != {want_op}")
+            if o["res_dtype"] != want:
+                dbad.append(f"(A@X).dtype {o['res_dtype']} != {want}")
+            dt_deviates += bool(dbad)
+        # a deviation from the promoted dtype that the model reproduces at the probed flags is a recorded finding
+        if bad or i in failset or i in dfail:
+            mism.append(dict(oracle_fail=bool(bad) or (i in dfail and bool(dbad)), case=c, got=o, failed_clauses=bad + (dbad if i in dfail else []),
+                             model_disagrees=(i in failset), dtype_model_disagrees=(i in dfail)))
     distinct = len({core.digest(c["tree"]) for c in cases if O.nontrivial(c)})
     return dict(
         evaluations=len(cases), distinct_nontrivial=distinct,
@@ -176,6 +202,6 @@ def run(ctx):
              "non-trivial = depth>=2 or a structured leaf; distinct by tree hash" % ctx.budget(3, 4),
         samples=[dict(tree=c["tree"], X=c["X"], dx=c["dx"]) for c in cases[:2]],
         mismatches=mism, findings=fnd,
-        extra=dict(kind_histogram=O.histogram(cases), wide_cases=sum(1 for c in cases if 8 * c['m'] < c['n']), column_or_row_shapes=sum(1 for c in cases if 1 in (c['m'], c['n'])), compared_in_coq=len(coq_idx), dtype_clause_checked=dt_checked,
+        extra=dict(kind_histogram=O.histogram(cases), wide_cases=sum(1 for c in cases if 8 * c['m'] < c['n']), column_or_row_shapes=sum(1 for c in cases if 1 in (c['m'], c['n'])), compared_in_coq=len(coq_idx), dtype_clause_checked=dt_checked, dtype_deviations_explained_by_recorded_flags=dt_deviates, dtype_flag_vector=flv,
                    impl_exceptions=sum(1 for o in obs if not o.get("ok")),
                    complex_cases=sum(1 for c in cases if any(d in T.CPLX for d in O.leaf_dts(c["tree"])))))
